@@ -269,6 +269,22 @@ check("C05",
       "TLA+ spec (SelObjective.tla) model-checked by TLC + TLC validation of recorded latent/objective values of ~56 real problem classes",
       "DESIGN.md C05")
 
+check("C06",
+      "TLC checks the exchange hill climber as a state machine (Steepest / Stop actions) over all subset problems of 4 candidates "
+      "(members stay distinct, strict lexicographic descent in (violation, score), stops only at local optima, termination, a "
+      "separable local optimum is global). Every optimiser class (sorting, both hill climbers, single-objective subset GA, NSGA-II, "
+      "NSGA-III and four memetic NSGA-II subset variants, integer/binary/real GA and NSGA-II) and the subset/integer variation "
+      "operators are run on random integer-data problems; TLC validates each returned solution (size, membership, distinctness, "
+      "bounds, integrality, dtype), re-evaluates objective and constraint violation from the problem data, checks constraint-"
+      "domination inside fronts, the brute-force optimum for the sorting optimiser on separable problems, every hill-climber "
+      "step (rebuilt from the evaluation log) against the Steepest action and the final state against LocalOpt, and that the "
+      "problem object is unchanged.",
+      "Objective data are integers; real vectors compared in thousandths with a rounding allowance and ordered by dense ranks; "
+      "constrained genetic runs in which pymoo finds no feasible member raise while assembling the Solution and return nothing "
+      "(counted in the evidence, outside the property); pymoo draws from numpy's global generator, seeded per case.",
+      "TLA+ spec (Optimizers.tla) exhaustive TLC model check + TLC trace validation of recorded solutions, trajectories and operator offspring (Optimizers_Trace.tla)",
+      "DESIGN.md C06")
+
 def build():
     checks = []
     for pid in sorted(CHECKS):
